@@ -115,12 +115,12 @@ type NKind int
 
 // node kinds
 const (
-	NTerm    NKind = iota // bare term
-	NField                // f:v
-	NCmp                  // f:>v f:>=v f:<v f:<=v
-	NRange                // f:[a TO b] f:{a TO b}
-	NList                 // f:(v1 OR v2 ...)
-	NGroup                // f:(E) with E not a plain-literal OR chain and not a single term
+	NTerm  NKind = iota // bare term
+	NField              // f:v
+	NCmp                // f:>v f:>=v f:<v f:<=v
+	NRange              // f:[a TO b] f:{a TO b}
+	NList               // f:(v1 OR v2 ...)
+	NGroup              // f:(E) with E not a plain-literal OR chain and not a single term
 	NAnd
 	NOr
 	NNot
